@@ -72,6 +72,8 @@ def run(ctx):
             res.violation(oracle, sig, ex, ob, replay=r)
 
     st = e1.explore(ctx.pool, base, [NONCE1, NONCE2], 2, on_exec, skip_cp=lambda cp: cp["kind"] == "hook")
+
+    flows.account_divergences(res, st)
     res.extra["nonce_exploration"] = {"bound": 2, "executions": st["executions"], "per_depth": st["per_depth"],
                                       "alphabet_sizes": st["alphabet_sizes"]}
     # dir with nonce as a configuration (all requests) and a CA whose newNonce answers 200
@@ -111,7 +113,7 @@ def run(ctx):
         if not o.get("ok"):
             res.machinery_errors.append("sigshapes failed: %s" % str(o)[:200])
             continue
-        if o.get("cap_hit") or not o.get("all_cells"):
+        if (o.get("cap_hit") or not o.get("all_cells")) and not o.get("failures"):
             res.machinery_errors.append("sigshapes: cells not all witnessed for %s within the cap: %s" % (q["key_type"], o.get("cells")))
         cells[q["key_type"]] = dict(o["cells"], signatures=o["signatures"], verified=o["verified"], want2=q["want2"])
         res.evaluations += o["signatures"]
